@@ -19,6 +19,7 @@ PROPS = {
             {'engine': 'verus', 'name': 'par_range', 'tier': 'quick', 'role': 'IntoParallelSource::generate_iterator for Range<u64> and the 9 macro instances + partition lemma'},
             {'engine': 'verus', 'name': 'file_source', 'tier': 'quick', 'role': 'FileSource::{setup,next}: byte ranges tile the file; a replica emits exactly the lines starting in (lo, hi]'},
             {'engine': 'verus', 'name': 'channel_source', 'tier': 'quick', 'role': 'ChannelSource::next: every received item is emitted once, in order'},
+            {'engine': 'verus', 'name': 'csv_source', 'tier': 'quick', 'role': 'byte-range computation of CsvSource::setup: start/end aligned to record boundaries, end of replica g == start of replica g+1, for any file size and replica count'},
         ],
         'explanation': 'Verus proof (unbounded) that every integer-range instance of generate_iterator returns exactly the chunk '
                        '[lo+min(n,i*c), lo+min(n,(i+1)*c)) without panicking for all bounds incl. reversed and near-limit ones, and a pure '
